@@ -16,7 +16,7 @@ LEVEL = "exploration"
 DECIDING = ["C12.transition_matrix"]
 RULE = ("every trajectory over the alphabet {0,1,2,NaN} of length 0..Lmax (quick Lmax=5, thorough Lmax=7), every lag "
         "tau in 1..L+1, both window modes (half of the trajectories through ONE live MSM object asked repeatedly), total_num_cells=4 (cell 3 never visited), plus seeded random long "
-        "trajectories (L<=2000, up to 3e6 cells incl. the high end of the index range, NaN runs, tau given as int/float/str); a case is the triple "
+        "trajectories (L<=2000, up to 3e6 cells incl. the high end of the index range, NaN runs, tau given as int/float/str) and one trajectory of 1.0-1.3e5 frames per run; a case is the triple "
         "(trajectory, tau, mode); non-trivial = at least one counted window and >=2 distinct visited cells; "
         "distinct by digest of the triple")
 ASSUMPTIONS = ["cell indices in the trajectory are < total_num_cells (larger ones are outside the property)",
@@ -169,6 +169,19 @@ def run_exhaustive(MSM, spec):
                     drive(MSM, seq, tau, noncorr, N_CELLS_SMALL, check_reverse=(idx % 7 == 0), obj=shared)
 
 
+def run_very_long(MSM, spec):
+    """production trajectories have 1e5..1e7 frames: one trajectory beyond 1e5 frames per run, lags that do not divide round block sizes"""
+    rng = random.Random(spec["rseed"])
+    nprng = np.random.default_rng(spec["rseed"])
+    L = 100000 + rng.randint(1000, 30000)
+    n = 20
+    seq = nprng.integers(0, n, size=L).astype(float)
+    seq[nprng.random(L) < 0.01] = np.nan
+    for tau in (rng.choice([3, 7, 9]), rng.choice([6, 11, 13])):
+        for noncorr in (True, False):
+            drive(MSM, seq.tolist(), tau, noncorr, n, check_reverse=False)
+
+
 def run_random(MSM, spec):
     rng = random.Random(spec["rseed"])
     for it in range(spec["count"]):
@@ -218,6 +231,7 @@ def shards(tier, seed):
     nr = 4 if tier == "quick" else 16
     per = 60 if tier == "quick" else 125
     out += [{"kind": "random", "rseed": seed * 1000 + i, "count": per} for i in range(nr)]
+    out += [{"kind": "very_long", "rseed": seed * 1000 + 700 + i} for i in range(1 if tier == "quick" else 4)]
     return out
 
 
@@ -225,6 +239,8 @@ def run_shard(spec):
     MSM = install()
     if spec["kind"] == "exhaustive":
         run_exhaustive(MSM, spec)
+    elif spec["kind"] == "very_long":
+        run_very_long(MSM, spec)
     else:
         run_random(MSM, spec)
 
